@@ -81,10 +81,10 @@ def front_cases():
     """(kind, outcome, N, W, lam_kind, beta_kind, eps)"""
     out = []
     for kind in ("single", "joint"):
-        for outcome in ("success", "no_donor", "fault0", "fault1", "wrong_kind", "int_data", "f32_data", "neg_beta"):
+        for outcome in ("success", "no_donor", "fault0", "fault1", "wrong_kind", "int_data", "f32_data", "neg_beta", "w1"):
             for (lam_kind, beta_kind) in (("matrix", "vector"), ("scalar", "vector"), ("matrix", "scalar")):
                 for eps in (0, 1e-2):
-                    if outcome in ("wrong_kind", "no_donor", "int_data", "f32_data", "neg_beta") and (eps or lam_kind == "scalar"):
+                    if outcome in ("wrong_kind", "no_donor", "int_data", "f32_data", "neg_beta", "w1") and (eps or lam_kind == "scalar"):
                         continue
                     if outcome == "neg_beta" and beta_kind != "vector":
                         continue
@@ -131,6 +131,22 @@ def build_front(kind, outcome, lam_kind, beta_kind, eps, order, readonly):
                 b.setflags(write=False)
             return b
         args["data"] = [conv(x) for x in args["data"]] if kind == "joint" else conv(args["data"])
+    elif outcome == "w1":
+        # window_size == 1: the stacked data has the shape of the input, a natural place to alias it
+        args["window_size"] = 1
+        s1o = s1 + 20.0
+        s2o = s2 + 20.0
+        if kind == "joint":
+            args["data"] = [form(s1o, order, readonly), form(s2o, order, readonly)]
+            Tp1 = len(s1o) + len(s2o)
+        else:
+            args["data"] = form(s1o, order, readonly)
+            Tp1 = len(s1o)
+        lam1 = lam[:N, :N]
+        args["sparsity_weight"] = form(lam1, order, readonly) if lam_kind == "matrix" else 0.11
+        if beta_kind == "vector":
+            args["label_switching_cost"] = form(np.array([1.0 + 0.5 * (i % 3) for i in range(Tp1)]), "C", readonly)
+        init = tuple(0 if i < Tp1 // 2 else 1 for i in range(Tp1))
     elif outcome == "neg_beta":
         v = np.array(args["label_switching_cost"], dtype=np.float64)
         v[1] = -0.5
@@ -147,7 +163,7 @@ def build_front(kind, outcome, lam_kind, beta_kind, eps, order, readonly):
 
 
 EXPECT = {"success": "ok", "no_donor": RuntimeError, "fault0": InjectedFault, "fault1": InjectedFault,
-          "wrong_kind": TypeError, "int_data": "ok", "f32_data": "ok", "neg_beta": "ok"}
+          "wrong_kind": TypeError, "int_data": "ok", "f32_data": "ok", "neg_beta": "ok", "w1": "ok"}
 
 
 def work_front(task):
@@ -352,7 +368,7 @@ def run(ctx):
     ctx.cov["evaluations_jit"] = ctx.cov["evaluations"] - n0
     ctx.cov["exhaustive"] = True
     ctx.cov["rule"] = (
-        "front ends {single, joint} x outcome {success, int64 / float32 series, a per-pair cost with a negative entry, no-donor RuntimeError, optimiser fault at (round 0, cluster 1) "
+        "front ends {single, joint} x outcome {success, int64 / float32 series, window_size 1, a per-pair cost with a negative entry, no-donor RuntimeError, optimiser fault at (round 0, cluster 1) "
         "and (round 1, cluster 0), wrong-kind TypeError} x (lambda matrix|scalar, beta vector|scalar) x eps {0,1e-2} x "
         "order {C,F} x {writable, read-only}; optimiser entry point x 4 shapes x order x writability x lambda form "
         "x rho {1,10} x callback; labelling step x 3 shapes x order x writability x beta form; statistics/optimise/"
